@@ -11,7 +11,9 @@ KF_ESCAPE = "C08:sqlalchemy/common.py:_substr_function:autoescape-clause"
 
 # literal assignments: (kind, value A, value B) — both valid for the kind, both distinctive enough to be searched for in SQL text
 VALUES = {
-    "String": [("alpha_sentinel", "b'; DROP TABLE t; --"), ("O'B", "x\"y"), ("zzq", "qzz zzq"), ("50%-50", "50%/50"), ("a_b", "a/_b!#"), ("%", "/!#~^|%")],
+    "String": [("alpha_sentinel", "b'; DROP TABLE t; --"), ("O'B", "x\"y"), ("zzq", "qzz zzq"), ("50%-50", "50%/50"), ("a_b", "a/_b!#"), ("%", "/!#~^|%"),
+               # plain text against regex / pattern metacharacters (a translation chosen from the literal's CONTENT is not "the same statement")
+               ("plainword", "C.py"), ("a+b", "ab"), ("^x$", "x y"), ("[a-z]*", "az"), ("a\\d", "ad"), ("(a|b)", "a b")],
     "Integer": [("1", "7"), ("0", "5"), ("424242", "737373"), ("-424242", "5"), ("9223372036854775808", "6"), ("-9223372036854775809", "9223372036854775807"), ("99999999999999999999999", "0")],
     "Float": [("1.0", "7.5"), ("0.0", "2.5"), ("4242.5", "7373.25"), ("1.5e10", "2E-3")],
     "Date": [("2020-01-01", "1999-12-31"), ("0001-01-01", "9999-12-31")],
@@ -27,6 +29,8 @@ def templates():
         ("startswith(s1, {s}) eq true", "String"), ("not endswith(s2, {s})", "String"), ("contains(s1, {s}) ne true", "String"),
         ("tolower(s1) eq {s}", "String"), ("length(s1) gt 0 and s2 gt {s}", "String"), ("contains(tolower(s1), tolower({s}))", "String"),
         ("substring(s1, 1) eq {s}", "String"), ("trim(s1) eq {s} or toupper(s2) eq {s}", "String"),
+        ("matchesPattern(s1, {s})", "String"), ("not matchesPattern(s1, {s})", "String"), ("matchesPattern(s1, {s}) and i1 eq 1", "String"), ("matchesPattern(tolower(s1), {s}) eq true", "String"),
+        ("indexof(s1, {s}) eq 1", "String"), ("endswith(s1, {s})", "String"), ("startswith(tolower(s1), {s})", "String"), ("concat(s1, {s}) eq s2", "String"),
         ("i1 eq {i}", "Integer"), ("i1 add {i} gt i2", "Integer"), ("i1 in ({i}, 1, {i})", "Integer"), ("i1 mul {i} sub 3 le {i}", "Integer"),
         ("substring(s1, {i}) eq 'x'", "Integer"), ("(i1 gt {i}) ne true", "Integer"), ("(i1 in ({i}, 2)) ne true", "Integer"),
         ("f1 lt {f}", "Float"), ("f1 add {f} ge 1.5", "Float"),
@@ -111,6 +115,75 @@ def expected_param(kind, text):
 BACKENDS = [("django", lambda t: oc.dj_shorthand_sql(t)), ("sa-orm", lambda t: oc.sa_shorthand_sql(t, "orm")),
             ("sa-legacy", lambda t: oc.sa_shorthand_sql(t, "legacy")), ("sa-core", lambda t: oc.sa_shorthand_sql(t, "core"))]
 
+def judge_shorthands(thorough):
+    """the property on the real code, through the shorthands on filter TEXT -> (violations, tally, known-finding hits, evaluations)"""
+    evals = [0]
+    dbenv.django_load_scalar([]); dbenv.sa_load_scalar([])
+    viol, tally, kf = [], collections.Counter(), 0
+    pairs = []
+    for tpl, kind in templates():
+        for a, b in VALUES[kind]:
+            pairs.append((kind, tpl.replace(HOLE[kind], spell(kind, a)), tpl.replace(HOLE[kind], spell(kind, b)), a, b))
+    for kind in ("String", "Integer"):
+        for n in (3, 101, 250 if thorough else 120):
+            a, b = VALUES[kind][0]
+            pairs.append((kind, big_list(kind, a, n), big_list(kind, b, n), a, b))
+    # Django's own `In` lookup drops repeated elements of a list (one placeholder per DISTINCT value): two assignments under which a list has a different number of
+    # distinct elements are not "the same filter with other values" for the host ORM; such pairs are left out (the library splices nothing in either)
+    import re as _re
+    def distinct_sizes(t):
+        return [len({x.strip() for x in m.group(1).split(",")}) for m in _re.finditer(r" in \(([^()]*)\)", t)]
+    pairs = [p for p in pairs if distinct_sizes(p[1]) == distinct_sizes(p[2])]
+    for name, fn in BACKENDS:
+        for kind, ta, tb, a, b in pairs:
+            oa, sa_, pa = fn(ta)
+            ob, sb_, pb = fn(tb)
+            evals[0] += 1
+            if oa != "ok" or ob != "ok":
+                tally[f"{name}:refused"] += 1
+                if (oa == "ok") != (ob == "ok"):
+                    viol.append((name, ta, tb, f"one variant accepted, the other {oa if oa != 'ok' else ob}"))
+                continue
+            if sa_ != sb_:
+                # known finding: autoescape adds an ESCAPE clause only when the literal substring contains a wildcard
+                if name.startswith("sa-") and kind == "String" and (sa_.replace(" ESCAPE '/'", "") == sb_.replace(" ESCAPE '/'", "")):
+                    kf += 1; tally[f"{name}:KF-escape"] += 1
+                    continue
+                viol.append((name, ta, tb, "compiled SQL differs between the two literal assignments"))
+                continue
+            bad = None
+            for val, sql, params in ((a, sa_, pa), (b, sb_, pb)):
+                pv = [canon_value(v) for v in (params if isinstance(params, list) else params.values())]
+                want = expected_param(kind, val)
+                if not any(w in pv or any(w == v.replace("/%", "%").replace("/_", "_").replace("//", "/") for v in pv) or
+                           (kind == "String" and any(w in v for v in pv)) for w in want):
+                    bad = f"value {val!r} is not in the parameter list {pv[:6]}"
+                if len(val) > 4 and val in sql:
+                    bad = f"value {val!r} appears in the SQL text"
+            if bad:
+                viol.append((name, ta, tb, bad))
+            else:
+                tally[f"{name}:ok"] += 1
+    return viol, tally, kf, evals[0]
+
+def env_switches():
+    """names of environment variables the library's own source reads (configuration switches): the judge is repeated in a process with each of them set"""
+    import re as _re2, glob as _glob, odata_query as _oq
+    names = set()
+    for f in _glob.glob(os.path.join(os.path.dirname(_oq.__file__), "**", "*.py"), recursive=True):
+        src = open(f, encoding="utf-8").read()
+        names |= set(_re2.findall(r"""environ(?:\.get)?\s*[\(\[]\s*['"]([A-Za-z_][A-Za-z0-9_]*)['"]""", src))
+        names |= set(_re2.findall(r"""getenv\s*\(\s*['"]([A-Za-z_][A-Za-z0-9_]*)['"]""", src))
+    return sorted(names)
+
+SWITCH_PROG = r'''
+import sys, json
+sys.path.insert(0, sys.argv[1])
+import checks.c08 as c08
+viol, tally, kf, n = c08.judge_shorthands(False)
+print(json.dumps({"viol": [list(v) for v in viol[:40]], "n_viol": len(viol), "evaluations": n}))
+'''
+
 def run(ctx):
     common.build_and_audit(ctx, PROP_MODS, gen=lambda c: gen_tables.generate(["Orm"]))
     rng = ctx.rng
@@ -174,52 +247,26 @@ def run(ctx):
         ctx.broken.append(f"correspondence bound-values: the model's parameter list is not contained in the real parameter list in {len(pdiff)} cases; first: {pdiff[0][0]} {pdiff[0][1]!r} wants {pdiff[0][2]} has {pdiff[0][3]}"[:800])
     ctx.note(f"bound values: model parameters found among the real parameters for all but {len(pdiff)} of the compiled statements")
     # 2. the property on the real code, through the shorthands on filter TEXT
-    dbenv.django_load_scalar([]); dbenv.sa_load_scalar([])
-    viol, tally, kf = [], collections.Counter(), 0
-    pairs = []
-    for tpl, kind in templates():
-        for a, b in VALUES[kind]:
-            pairs.append((kind, tpl.replace(HOLE[kind], spell(kind, a)), tpl.replace(HOLE[kind], spell(kind, b)), a, b))
-    for kind in ("String", "Integer"):
-        for n in (3, 101, 250 if ctx.thorough else 120):
-            a, b = VALUES[kind][0]
-            pairs.append((kind, big_list(kind, a, n), big_list(kind, b, n), a, b))
-    # Django's own `In` lookup drops repeated elements of a list (one placeholder per DISTINCT value): two assignments under which a list has a different number of
-    # distinct elements are not "the same filter with other values" for the host ORM; such pairs are left out (the library splices nothing in either)
-    import re as _re
-    def distinct_sizes(t):
-        return [len({x.strip() for x in m.group(1).split(",")}) for m in _re.finditer(r" in \(([^()]*)\)", t)]
-    pairs = [p for p in pairs if distinct_sizes(p[1]) == distinct_sizes(p[2])]
-    for name, fn in BACKENDS:
-        for kind, ta, tb, a, b in pairs:
-            oa, sa_, pa = fn(ta)
-            ob, sb_, pb = fn(tb)
-            ctx.evaluations += 1
-            if oa != "ok" or ob != "ok":
-                tally[f"{name}:refused"] += 1
-                if (oa == "ok") != (ob == "ok"):
-                    viol.append((name, ta, tb, f"one variant accepted, the other {oa if oa != 'ok' else ob}"))
+    viol, tally, kf, n_ev = judge_shorthands(ctx.thorough)
+    ctx.evaluations += n_ev
+    # configuration switches: every environment variable the library's source reads is set to each of "1" / "true" in a process of its own and the judge repeated there
+    # (a switch may change what is logged or how statements are annotated — not whether values are bound); on a source without such reads nothing runs
+    import subprocess, sys as _sys, json as _json
+    switches = env_switches()
+    ctx.extra["environment_switches"] = switches
+    for name in switches:
+        for val in ("1", "true"):
+            env = dict(os.environ); env[name] = val
+            try:
+                p = subprocess.run([_sys.executable, "-c", SWITCH_PROG, common.HERE], env=env, stdout=subprocess.PIPE, stderr=subprocess.PIPE, timeout=900)
+                res = _json.loads(p.stdout.decode().strip().split("\n")[-1])
+            except Exception as e:  # noqa
+                ctx.note(f"switch {name}={val}: the judge process did not finish ({type(e).__name__})")
                 continue
-            if sa_ != sb_:
-                # known finding: autoescape adds an ESCAPE clause only when the literal substring contains a wildcard
-                if name.startswith("sa-") and kind == "String" and (sa_.replace(" ESCAPE '/'", "") == sb_.replace(" ESCAPE '/'", "")):
-                    kf += 1; tally[f"{name}:KF-escape"] += 1
-                    continue
-                viol.append((name, ta, tb, "compiled SQL differs between the two literal assignments"))
-                continue
-            bad = None
-            for val, sql, params in ((a, sa_, pa), (b, sb_, pb)):
-                pv = [canon_value(v) for v in (params if isinstance(params, list) else params.values())]
-                want = expected_param(kind, val)
-                if not any(w in pv or any(w == v.replace("/%", "%").replace("/_", "_").replace("//", "/") for v in pv) or
-                           (kind == "String" and any(w in v for v in pv)) for w in want):
-                    bad = f"value {val!r} is not in the parameter list {pv[:6]}"
-                if len(val) > 4 and val in sql:
-                    bad = f"value {val!r} appears in the SQL text"
-            if bad:
-                viol.append((name, ta, tb, bad))
-            else:
-                tally[f"{name}:ok"] += 1
+            ctx.evaluations += res["evaluations"]
+            tally[f"switch:{name}={val}:violations"] += res["n_viol"]
+            for v in res["viol"]:
+                viol.append((v[0] + f" [{name}={val}]", v[1], v[2], v[3]))
     ctx.extra["judged"] = dict(tally)
     ctx.extra["known_finding_hits"] = kf
     ctx.note(f"judge C08 on compiled statements: {dict(tally)}; {len(viol)} violations")
